@@ -9,3 +9,10 @@ open Cascette.Props.C08
 #print axioms zbs_parse_wf
 #print axioms zbs_accepted_is_own_rebuild
 #print axioms zbs_fixed_point
+#print axioms size_parse_build
+#print axioms size_parse_wf
+#print axioms size_accepted_is_own_rebuild
+#print axioms size_fixed_point
+#print axioms size_overwide_esize_rejected_by_validate
+#print axioms root_accepted_not_rebuildable_witness
+#print axioms root_build_some_partial
